@@ -306,6 +306,53 @@ Definition p_consumer_re : list instr := [
   (*18*) IUnlock M;
   (*19*) IEnd ].
 
+(* ---- scenario "periodic": thread 0 constructs a PeriodicThread (the constructor calls Thread::Start) and
+   then calls PeriodicThread::Stop(); thread 1 is the periodic thread (Thread::_InternalRun, then
+   PeriodicThread::Run: the callback (observation OUT_CB), then lock / test m_terminate / TimedWait / ...).
+   Mutex 4 = PeriodicThread::m_mutex, condition 4 = PeriodicThread::m_condition, variable 4 = m_terminate;
+   Thread::m_mutex / m_condition / m_running are mutex 1, condition 1, variable 1 as before. *)
+Definition PM := 4.  Definition PC := 4.  Definition TERM := 4.  Definition OUT_CB := 2.
+Definition p_per_owner : list instr := [
+  (* 0*) ILock TM;
+  (* 1*) IBrVar RUNNING 1 6;
+  (* 2*) ICreateI 1;
+  (* 3*) IBrVar RUNNING 1 6;
+  (* 4*) IWait TC TM;
+  (* 5*) IJmp 3;
+  (* 6*) IUnlock TM;
+  (* 7*) ILock PM;
+  (* 8*) IWr TERM 1;
+  (* 9*) IUnlock PM;
+  (*10*) ISignal PC;
+  (*11*) ILock TM;
+  (*12*) ILd RUNNING;
+  (*13*) IUnlock TM;
+  (*14*) IBrReg 0 20;
+  (*15*) IRst 1;
+  (*16*) IJoinI 1;
+  (*17*) ILock TM;
+  (*18*) IWr RUNNING 0;
+  (*19*) IUnlock TM;
+  (*20*) IEnd ].
+Definition p_per_thread : list instr := [
+  (* 0*) ILock TM;
+  (* 1*) IWr RUNNING 1;
+  (* 2*) IUnlock TM;
+  (* 3*) ISignal TC;
+  (* 4*) IOut OUT_CB;
+  (* 5*) ILock PM;
+  (* 6*) IBrVar TERM 1 15;
+  (* 7*) ITimedWait PC PM;
+  (* 8*) IBrReg 0 12;
+  (* 9*) IBrVar TERM 1 15;
+  (*10*) IUnlock PM;
+  (*11*) IJmp 5;
+  (*12*) IUnlock PM;
+  (*13*) IOut OUT_CB;
+  (*14*) IJmp 5;
+  (*15*) IUnlock PM;
+  (*16*) IEnd ].
+
 Definition P : programs := fun id =>
   match id with
   | 0 => p_exec_main | 1 => p_consumer | 2 => p_producer
@@ -313,6 +360,7 @@ Definition P : programs := fun id =>
   | 6 => p_fut_main_copy | 7 => p_fut_setter_copy | 8 => p_fut_getter
   | 10 => p_ss_main | 11 => p_ss_producer
   | 12 => p_exec_main_re | 13 => p_consumer_re
+  | 14 => p_per_owner | 15 => p_per_thread
   | _ => []
   end.
 
@@ -407,3 +455,9 @@ Definition init_execre (lims rs : list nat) : state :=
               | 0 => length lims
               | _ => if (102 <=? x) && (x <? 102 + length lims) then nth (x - 102) rs 0 else 0
               end).
+
+Definition init_periodic : state :=
+  base_state 2
+    (fun t => match t with 0 => mk_thread 14 Fresh 0 | 1 => mk_thread 15 NotStarted 0 | _ => dummy end)
+    (fun _ => 0)
+    (fun _ => 0).
